@@ -92,6 +92,8 @@ def units(tier):
                 yield {"leg": "product", "kind": "s6f", "t": ti, "mat": mat, "mode": mode}
     for mode in MODES:
         yield {"leg": "sameuri", "mode": mode}
+    for ti in range(3):
+        yield {"leg": "cli-blacklist", "t": ti}
     sw = [("s6", ti, mat) for ti in range(3) for mat in (("full", "checker", "mid_empty", "sparse3", "off1", "corners") if th else ("full", "mid_empty"))]
     for kind, ti, mat in sw:
         for dim in ("min_count", "blacklist", "tol", "max_iters", "x0", "rescale", "chunksize"):
@@ -286,8 +288,72 @@ def _sameuri(R, mode, only):
         scratch.rm(p)
 
 
+def _cli_blacklist(R, ti, only):
+    """`cooler balance --blacklist <BED>`: intervals aligned with bins, starting / ending inside a bin, inside one bin, spanning a
+    chromosome; the stored weights must carry NaN exactly on the bins that overlap an interval (plus the other filters)"""
+    import cooler
+    import shutil
+    from vmc import build, models
+    table = [((2, 2, 2, 2, 2, 2),), ((2, 2, 2, 2), (2, 2)), ((2, 2), (2, 2, 2), (2,))][ti]
+    bins = alpha.table_bins(table, "chr")
+    n = len(bins)
+    names = alpha.NAMES["chr"][:len(table)]
+    cells = alpha.structured(n, True)[1][1]
+    pix = {c: alpha.value(n, c[0], c[1]) for c in cells}
+    A = np.zeros((n, n))
+    for (i, j), v in pix.items():
+        A[i, j] = A[j, i] = v
+    chrom_of = [ci for ci, c in enumerate(table) for _ in c]
+    R.add("states")
+    R.add("traces")
+    d = scratch.sub(f"c10bl_{ti}")
+    import os
+    sizes = models.ref_chromsizes(bins)
+    c0 = names[0]
+    L0 = sizes[c0]
+    beds = [[(c0, 0, 2)], [(c0, 1, 2)], [(c0, 1, 3)], [(c0, 3, 4)], [(c0, 2, L0)], [(c0, 1, 2), (names[-1], 0, 1)], [(names[-1], 0, sizes[names[-1]])], [(c0, 3, 3 + 1), (c0, 0, 1)]]
+    for kk, ivs in enumerate(beds):
+        inner = {"t": ti, "bed": [list(x) for x in ivs]}
+        if only is not None and only != inner:
+            continue
+        R.order = (R.order[0], kk)
+        R.c["evaluations"] += 1
+        R.c["transitions"] += 1
+        R.classes["cli-blacklist"] += 1
+        bad = sorted({k for (c, s, e) in ivs for k in models.ref_cover(bins, c, s, e)})
+        p = os.path.join(d, f"c{kk}.cool")
+        build.create(p, bins, pix, True)
+        bed = os.path.join(d, f"b{kk}.bed")
+        with open(bed, "w") as fh:
+            # with a header line: the CLI sniffs for one, and a one-line BED WITHOUT header is taken to be all header
+            # (`need at least one array to concatenate`) - an error outside this property, noted in DESIGN section 12
+            fh.write("chrom\tstart\tend\n")
+            for iv in ivs:
+                fh.write("\t".join(str(x) for x in iv) + "\n")
+        code, so, exc = build.cli(["balance", "--blacklist", bed, "--min-nnz", 0, "--mad-max", 0, "--ignore-diags", 1, "--max-iters", 300, p])
+        if code != 0 or exc is not None:
+            R.mismatch("balance-cli-fails", inner, f"code={code} exc={exc!r:.200}")
+            continue
+        w = cooler.Cooler(p).bins()["weight"][:].values
+        o = base_opts("gw", 1, 0, 0)
+        o["max_iters"] = 300
+        o["blacklist"] = bad
+        o["x0"] = None
+        ref, rs, rv, info = rb.ref_balance(A, chrom_of, double_diag=True, **o)
+        rowF, _ = rb.row_sums(A, chrom_of, "gw", 1, np.ones(n), double_diag=True)
+        und = {b for b in range(n) if rowF[b] == 0}
+        if {int(b) for b in range(n) if np.isnan(w[b])} - und != {int(b) for b in range(n) if np.isnan(ref[b])} - und:
+            R.mismatch("nan-set!=documented-filters(cli --blacklist)", inner, f"NaN at {[int(b) for b in range(n) if np.isnan(w[b])]} blacklisted bins {bad}")
+        else:
+            R.c["nontrivial"] += 1
+    scratch.rm(d)
+
+
 def run(unit, R, tier, only=None):
     leg = unit["leg"]
+    if leg == "cli-blacklist":
+        _cli_blacklist(R, unit["t"], only)
+        return
     if leg == "sameuri":
         _sameuri(R, unit["mode"], only)
         return
